@@ -35,6 +35,8 @@ class Communities(Attribute):
 
     ID = Attribute.CODE.COMMUNITY
     FLAG = Attribute.Flag.TRANSITIVE | Attribute.Flag.OPTIONAL
+    # RFC 7606 section 7.8: a malformed COMMUNITY attribute is handled with treat-as-withdraw
+    TREAT_AS_WITHDRAW = True
 
     def __init__(self, packed: Buffer = b'') -> None:
         """Initialize from packed wire-format bytes.
